@@ -990,7 +990,7 @@ Qed.
 
 Lemma step_str : forall fill inp st s p c,
   m_stop st = false -> is_arg s -> s_fmt s = FStr -> s_size s = 8 -> lenN (m_val st) = VAL_SIZE ->
-  arg_word inp s = Some p -> p < 2 ^ 64 -> p <> 0 -> assoc p (strs inp) = Some c ->
+  arg_word inp s = Some p -> p < 2 ^ 64 -> p <> 0 -> lookup_str (strs inp) p = Some c ->
   m_total st + 4 <= MAX_SIZE ->
   step fill inp false st s =
   let '(dst, len) := copy_loop (c ++ [0]) 0 (MAX_SIZE - m_total st) [] 0 in
@@ -1106,7 +1106,7 @@ Qed.
    characters and "..." (longer ones), quoted, raw or with the escapes of print_escaped_char *)
 Theorem str_arg_roundtrip : forall syms fill inp st s p c,
   m_stop st = false -> is_arg s -> s_fmt s = FStr -> s_size s = 8 -> lenN (m_val st) = VAL_SIZE ->
-  arg_word inp s = Some p -> p < 2 ^ 64 -> p <> 0 -> assoc p (strs inp) = Some c ->
+  arg_word inp s = Some p -> p < 2 ^ 64 -> p <> 0 -> lookup_str (strs inp) p = Some c ->
   nz c -> c <> [255; 255; 255; 255] ->
   m_total st + need s (AStr c) <= MAX_SIZE ->
   exists chunk,
@@ -1257,7 +1257,7 @@ Inductive covered (inp : inputs) : spec -> aval -> Prop :=
     (s_fmt s = FChar /\ (s_size s = 1 \/ s_size s = 2 \/ s_size s = 4 \/ s_size s = 8)) ->
     covered inp s (AInt w)
 | cov_str : forall s p c, s_fmt s = FStr -> s_size s = 8 -> arg_word inp s = Some p -> p < 2 ^ 64 -> p <> 0 ->
-    assoc p (strs inp) = Some c -> nz c -> c <> [255; 255; 255; 255] -> covered inp s (AStr c)
+    lookup_str (strs inp) p = Some c -> nz c -> c <> [255; 255; 255; 255] -> covered inp s (AStr c)
 | cov_bad : forall s p, s_fmt s = FStr -> s_size s = 8 -> arg_word inp s = Some p -> p < 2 ^ 64 -> p <> 0 ->
     readable inp p = false -> covered inp s (ABad p)
 | cov_null : forall s, s_fmt s = FStr -> s_size s = 8 -> arg_word inp s = Some 0 -> covered inp s ANull.
@@ -1802,3 +1802,60 @@ Lemma struct_sse_whole :
   let inp := {| regs := []; xmm := [0x3ff8000000000001; 0x4002000000000002]; stk := []; rets := []; strs := []; wrds := [] |} in
   payload (run 0 inp false [sp]) = Some (le_bytes 8 0x3ff8000000000001 ++ le_bytes 8 0x4002000000000002).
 Proof. vm_compute. reflexivity. Qed.
+
+(* ------------------------------------------------------------------ only vetted pointers are dereferenced *)
+Lemma step_derefs_readable : forall inp is_ret st s,
+  Forall (fun a => readable inp a = true) (step_derefs inp is_ret st s).
+Proof.
+  intros inp is_ret st s. unfold step_derefs.
+  destruct (m_stop st); [constructor|].
+  destruct (negb (Bool.eqb is_ret (s_idx s =? 0))); [constructor|].
+  destruct (fmt_eqb (s_fmt s) FStruct && (MAX_SIZE <? m_total st + s_size s)); [constructor|].
+  match goal with |- context [match ?f with Some _ => _ | None => _ end] => destruct f as [val|] end; [|constructor].
+  destruct (is_strfmt (s_fmt s)); [|constructor].
+  destruct (MAX_SIZE <? m_total st + 4); [constructor|].
+  apply Forall_app. split.
+  - destruct (s_fmt s); try constructor.
+    destruct (assoc (of_le (takeN 8 val)) (wrds inp)) eqn:E; [|constructor].
+    constructor; [|constructor]. unfold readable. rewrite E.
+    destruct (lookup_str (strs inp) (of_le (takeN 8 val))); reflexivity.
+  - match goal with |- context [if ?p =? 0 then _ else _] => destruct (p =? 0); [constructor|];
+      destruct (readable inp p) eqn:E; [constructor; [exact E|constructor]|constructor] end.
+Qed.
+
+(* C09 vetting: whatever the specs and the register / stack contents, every pointer save_to_argbuf dereferences
+   lies inside a readable range [start, end) - the end address itself (one past the last byte) is not inside *)
+Theorem derefs_readable : forall fill inp is_ret specs,
+  Forall (fun a => readable inp a = true) (run_derefs fill inp is_ret specs).
+Proof.
+  intros fill inp is_ret specs. unfold run_derefs. generalize mst0.
+  induction specs as [|s r IH]; intro st; cbn [derefs_from]; [constructor|].
+  apply Forall_app. split; [apply step_derefs_readable|apply IH].
+Qed.
+
+(* the ranges are half-open: first byte and last byte (the NUL) are readable, one past the end is not *)
+Lemma lookup_half_open : forall a c,
+  lookup_str [(a, c)] a = Some c /\
+  lookup_str [(a, c)] (a + lenN c) = Some [] /\
+  lookup_str [(a, c)] (a + lenN c + 1) = None /\
+  (0 < a -> lookup_str [(a, c)] (a - 1) = None).
+Proof.
+  intros a c. cbn [lookup_str]. repeat split.
+  - assert ((a <=? a) && (a <? a + lenN c + 1) = true) as -> by lia.
+    replace (a - a) with 0 by lia. reflexivity.
+  - assert ((a <=? a + lenN c) && (a + lenN c <? a + lenN c + 1) = true) as -> by lia.
+    replace (a + lenN c - a) with (lenN c) by lia. unfold dropN, lenN. rewrite Nat2N.id, skipn_all. reflexivity.
+  - assert ((a <=? a + lenN c + 1) && (a + lenN c + 1 <? a + lenN c + 1) = false) as -> by lia. reflexivity.
+  - intro H. assert ((a <=? a - 1) && (a - 1 <? a + lenN c + 1) = false) as -> by lia. reflexivity.
+Qed.
+
+(* a string pointer that equals the END of a readable range is not dereferenced: it is shown as an address *)
+Lemma end_of_range_not_dereferenced :
+  let inp := {| regs := [4096 + 4; 0; 0; 0; 0; 0]; xmm := []; stk := []; rets := []; strs := [(4096, [69; 69; 69])]; wrds := [] |} in
+  run_derefs 0 inp false [spec_str 1] = [] /\
+  show_args_b [] [spec_str 1] (payload (run 0 inp false [spec_str 1])) = [40; 34] ++ bad_ptr_text 4100 ++ [34; 41] /\
+  (* one byte earlier it is the NUL of the string: dereferenced, shown as "" *)
+  let inp' := {| regs := [4096 + 3; 0; 0; 0; 0; 0]; xmm := []; stk := []; rets := []; strs := [(4096, [69; 69; 69])]; wrds := [] |} in
+  run_derefs 0 inp' false [spec_str 1] = [4099] /\
+  show_args_b [] [spec_str 1] (payload (run 0 inp' false [spec_str 1])) = [40; 34; 34; 41].
+Proof. vm_compute. repeat split; reflexivity. Qed.
